@@ -17,7 +17,7 @@
                                   -> run_correct (+ den_is_dataflow, value_independent_of_consumer,
                                      run_fuel_irrelevant)
    * "explicit connections first and builder-level default connections otherwise"
-                                  -> default_connections_second, built_pipeline_is_acyclic
+                                  -> default_connections_second, builder_edits, built_pipeline_is_acyclic
    * "independent of the order in which nodes were declared or requested"
                                   -> declaration_order_irrelevant
    * "each component executes at most once"            -> at_most_once
@@ -124,6 +124,26 @@ Theorem default_connections_second : forall defaults p,
 Proof. exact resolve_param_l. Qed.
 Print Assumptions default_connections_second.
 
+(* Editing a builder between builds: default_connection(pn, t) redirects exactly the parameters named
+   pn that have no explicit connection (whatever an earlier build resolved them to) and changes nothing
+   else; connect(c, pn=t) sets that explicit connection only.  [build] is a function of the builder
+   state, so every build() denotes the state at that moment. *)
+Theorem builder_edits :
+  (forall b pn t p,
+     p_src (resolve_param (b_defaults (apply_edit b (EDefault pn t))) p) =
+       match bp_conn p with
+       | Some s => Some s
+       | None => if Nat.eqb (bp_name p) pn then Some t else lookup (bp_name p) (b_defaults b)
+       end /\
+     b_nodes (apply_edit b (EDefault pn t)) = b_nodes b /\ b_aliases (apply_edit b (EDefault pn t)) = b_aliases b) /\
+  (forall pn t p,
+     bp_conn (set_conn pn t p) = (if Nat.eqb (bp_name p) pn then Some t else bp_conn p) /\
+     bp_name (set_conn pn t p) = bp_name p /\ bp_lazy (set_conn pn t p) = bp_lazy p /\
+     bp_typed (set_conn pn t p) = bp_typed p /\ bp_nullable (set_conn pn t p) = bp_nullable p /\
+     bp_ty (set_conn pn t p) = bp_ty p).
+Proof. split; [exact default_edit_l|exact connect_edit_l]. Qed.
+Print Assumptions builder_edits.
+
 Theorem built_pipeline_is_acyclic : forall b g, build b = Some g ->
   g = resolve b /\ exists rank, ranked g rank /\ forall n, rank n < 2 + length g.
 Proof. exact build_ranked_l. Qed.
@@ -176,12 +196,12 @@ Definition ex_body1 (k : Z) : list (option val) -> prog :=
 Definition ex_builder : builder :=
   {| b_nodes :=
        [ (0, BInput true true);
-         (1, BComp [ {| bp_name := 0; bp_conn := Some 0; bp_lazy := false; bp_typed := true; bp_nullable := false |} ]
+         (1, BComp [ {| bp_name := 0; bp_conn := Some 0; bp_lazy := false; bp_typed := true; bp_nullable := false; bp_ty := TInt |} ]
                    (body_of (BRet (BLin 1 [(1%Z, AArg 0)]))));
-         (2, BComp [ {| bp_name := 1; bp_conn := None; bp_lazy := false; bp_typed := true; bp_nullable := true |} ] (ex_body1 1));
-         (3, BComp [ {| bp_name := 1; bp_conn := None; bp_lazy := false; bp_typed := true; bp_nullable := true |} ] (ex_body1 2));
-         (4, BComp [ {| bp_name := 2; bp_conn := Some 2; bp_lazy := false; bp_typed := true; bp_nullable := false |};
-                     {| bp_name := 3; bp_conn := Some 3; bp_lazy := true; bp_typed := true; bp_nullable := false |} ]
+         (2, BComp [ {| bp_name := 1; bp_conn := None; bp_lazy := false; bp_typed := true; bp_nullable := true; bp_ty := TInt |} ] (ex_body1 1));
+         (3, BComp [ {| bp_name := 1; bp_conn := None; bp_lazy := false; bp_typed := true; bp_nullable := true; bp_ty := TInt |} ] (ex_body1 2));
+         (4, BComp [ {| bp_name := 2; bp_conn := Some 2; bp_lazy := false; bp_typed := true; bp_nullable := false; bp_ty := TInt |};
+                     {| bp_name := 3; bp_conn := Some 3; bp_lazy := true; bp_typed := true; bp_nullable := false; bp_ty := TInt |} ]
                    (body_of (BForce 1 (BRet (BLin 0 [(1000%Z, AArg 0); (1%Z, AForced 1)]))))) ];
      b_defaults := [(1, 1)];
      b_aliases := [(100, 4)] |}.
